@@ -615,6 +615,14 @@ func (r *ezRun) oracles() {
 	if !matched && !tornFirst {
 		r.fail("C18.first-config", "the config visible after the entry point returned is not defaults < file < env < flags for any content the file had\n got: %+v\n want (initial file): %+v", *first, *r.expected(&e.File))
 	}
+	// whatever raced the entry point: once it has returned successfully,
+	// verification is on and what is visible has passed Verify
+	if !validEz(first) && !tornFirst {
+		r.fail("C18.verify-error", "the entry point succeeded but the config visible when it returned does not verify: %+v", *first)
+	}
+	if v := r.d.View(); !validEz(v) && r.tornAt == 0 {
+		r.fail("C18.verify-error", "after the entry point returned a config that does not verify became visible: %+v", *v)
+	}
 	if e.FileState == "missing" && !raced {
 		r.fail("C18.first-config", "the config file is missing but the entry point succeeded")
 	}
